@@ -541,6 +541,9 @@ func runC16(c *Ctx) {
 			seeds = append(seeds, b)
 		}
 	}
+	// every legacy ruleset, action and test of the repository's own legacy test data, each in a minimal legacy flow (the way
+	// the repository's tests hold them): all ruleset types, action types and tests are then among the mutated documents
+	seeds = append(seeds, c16LegacyHolders()...)
 	try := func(data []byte, how string) {
 		desc := map[string]any{"how": how, "input": truncate(string(data), 4000)}
 		c.Count("check:M-reject")
@@ -580,6 +583,22 @@ func runC16(c *Ctx) {
 			try(m, how)
 		}
 	}
+	// systematically: every member of every holder flow removed, nulled and emptied
+	holders := c16LegacyHolders()
+	for _, h := range holders {
+		for idx := 0; ; idx++ {
+			any := false
+			for _, kind := range []string{"remove", "null", "empty-string", "empty-object"} {
+				if m, how := c16MutateAt(h, idx, kind); m != nil {
+					any = true
+					try(m, how)
+				}
+			}
+			if !any {
+				break
+			}
+		}
+	}
 	for _, s := range []string{"", "null", "[]", "{}", "0", `""`, `{"uuid": null}`, `{"flows": []}`, `{"metadata": {}}`, `{"action_sets": null, "rule_sets": null}`, `{"uuid":"a","name":"b","spec_version":"13.0.0","nodes":null}`,
 		`{"uuid":"76f0a02f-3b75-4b86-9064-e9195e1b3a02","name":"b","spec_version":"13.0.0","language":"eng","type":"messaging","nodes":[null]}`,
 		`{"uuid":"76f0a02f-3b75-4b86-9064-e9195e1b3a02","name":"b","spec_version":"13.0.0","language":"eng","type":"messaging","nodes":[{"uuid":"365293c7-633c-45bd-96b7-0b059766588d","actions":[null],"exits":[{}]}]}`,
@@ -587,6 +606,104 @@ func runC16(c *Ctx) {
 		`{"uuid":"76f0a02f-3b75-4b86-9064-e9195e1b3a02","name":"b","spec_version":"13.0.0","language":"eng","type":"messaging","localization":{"spa":{"x":{"text":"notalist"}}},"nodes":[]}`} {
 		try([]byte(s), "literal")
 	}
+}
+
+// the idx-th member (in path order) of the document removed, nulled or emptied; nil when there is no such member
+func c16MutateAt(data []byte, idx int, kind string) ([]byte, string) {
+	var doc any
+	if json.Unmarshal(data, &doc) != nil {
+		return nil, ""
+	}
+	type slot struct {
+		set  func(any)
+		del  func()
+		path string
+	}
+	var slots []slot
+	var walk func(v any, path string)
+	walk = func(v any, path string) {
+		switch t := v.(type) {
+		case map[string]any:
+			keys := make([]string, 0, len(t))
+			for k := range t {
+				keys = append(keys, k)
+			}
+			sort.Strings(keys)
+			for _, k := range keys {
+				k, x := k, t[k]
+				slots = append(slots, slot{func(n any) { t[k] = n }, func() { delete(t, k) }, path + "." + k})
+				walk(x, path+"."+k)
+			}
+		case []any:
+			for i, x := range t {
+				walk(x, fmt.Sprintf("%s[%d]", path, i))
+			}
+		}
+	}
+	walk(doc, "$")
+	if idx >= len(slots) {
+		return nil, ""
+	}
+	sl := slots[idx]
+	switch kind {
+	case "remove":
+		sl.del()
+	case "null":
+		sl.set(nil)
+	case "empty-string":
+		sl.set("")
+	default:
+		sl.set(map[string]any{})
+	}
+	b, _ := json.Marshal(doc)
+	return b, kind + "@" + sl.path
+}
+
+func c16LegacyHolders() [][]byte {
+	var out [][]byte
+	dir := "/repo/flows/definition/legacy/testdata/"
+	meta := `"metadata": {"uuid": "50c3706e-fedb-42c0-8eab-dda3335714b7", "name": "TestFlow"}`
+	actionSets := `[{"uuid": "5b977652-91e3-48be-8e86-7c8094b4aa8f", "x": 0, "y": 2200, "destination": null, "exit_uuid": "cfcf5cef-49f9-41a6-886b-f466575a3045", "actions": []},
+		{"uuid": "833fc698-d590-42dc-93e1-39e701b7e8e4", "x": 0, "y": 2400, "destination": null, "exit_uuid": "da3e7eaf-c087-4e80-97b5-0b2e217fcc93", "actions": []},
+		{"uuid": "42ff72d3-5f4d-4dbf-89c9-8a97864dabcd", "x": 0, "y": 2600, "destination": null, "exit_uuid": "6a8cb81b-1b59-4cfb-b00e-575ccbafd3ba", "actions": []}]`
+	var rulesets []struct {
+		R json.RawMessage `json:"legacy_ruleset"`
+	}
+	if b, err := os.ReadFile(dir + "rulesets.json"); err == nil && json.Unmarshal(b, &rulesets) == nil {
+		for _, t := range rulesets {
+			var rs struct {
+				UUID string `json:"uuid"`
+			}
+			json.Unmarshal(t.R, &rs)
+			out = append(out, []byte(fmt.Sprintf(`{"base_language": "eng", "entry": %q, "flow_type": "F", "rule_sets": [%s], "action_sets": %s, %s}`, rs.UUID, t.R, actionSets, meta)))
+		}
+	}
+	var actions []struct {
+		A json.RawMessage `json:"legacy_action"`
+		T string          `json:"legacy_flow_type"`
+	}
+	if b, err := os.ReadFile(dir + "actions.json"); err == nil && json.Unmarshal(b, &actions) == nil {
+		for _, t := range actions {
+			ft := t.T
+			if ft == "" {
+				ft = "F"
+			}
+			out = append(out, []byte(fmt.Sprintf(`{"base_language": "eng", "entry": "10e483a8-5ffb-4c4f-917b-d43ce86c1d65", "flow_type": %q, "action_sets": [{"uuid": "10e483a8-5ffb-4c4f-917b-d43ce86c1d65",
+				"x": 100, "y": 0, "destination": null, "exit_uuid": "cfcf5cef-49f9-41a6-886b-f466575a3045", "actions": [%s]}], "rule_sets": [], %s}`, ft, t.A, meta)))
+		}
+	}
+	var tests []struct {
+		T json.RawMessage `json:"legacy_test"`
+	}
+	if b, err := os.ReadFile(dir + "tests.json"); err == nil && json.Unmarshal(b, &tests) == nil {
+		for _, t := range tests {
+			out = append(out, []byte(fmt.Sprintf(`{"base_language": "eng", "entry": "10e483a8-5ffb-4c4f-917b-d43ce86c1d65", "flow_type": "F", "action_sets": %s,
+				"rule_sets": [{"uuid": "10e483a8-5ffb-4c4f-917b-d43ce86c1d65", "x": 100, "y": 0, "label": "Name", "operand": "@step.value", "ruleset_type": "wait_message", "config": {},
+				"rules": [{"uuid": "9fe2d9b6-9bea-4bd0-8c57-ef1b4c5b2c3d", "category": {"eng": "Match"}, "destination": "5b977652-91e3-48be-8e86-7c8094b4aa8f", "destination_type": "A", "test": %s},
+				{"uuid": "1c75fd71-027b-40e8-a819-151a0f8140e6", "category": {"eng": "Other"}, "destination": null, "destination_type": null, "test": {"type": "true"}}]}], %s}`, actionSets, t.T, meta)))
+		}
+	}
+	return out
 }
 
 // every string in a JSON document, by its path
